@@ -4,7 +4,7 @@ from hypothesis import strategies as st
 import pysam
 
 from vlib import genome as G, pipeline as P
-from props.c10_haplotag import assign_sets, write_phased_vcf, run_tool as run_haplotag_tool
+from props.c10_haplotag import assign_sets, write_phased_vcf, set_label, run_tool as run_haplotag_tool
 
 ID = "C17"
 RULE = ("Histories model-phasing -> haplotag -> (partial) unphase -> haplotagphase: one sample, 1-2 contigs, well separated "
@@ -83,6 +83,8 @@ def gen(draw):
     c["missing_gt"] = {contig["name"]: [vi for vi in range(len(c["variants"][contig["name"]])) if draw(st.integers(0, 11)) == 0]
                        for contig in c["contigs"]}
     c["enc"] = "PS"
+    # phase set labels: the position of the first variant (as whatshap phase writes them), of the last one, or unrelated numbers
+    c["ps_label"] = draw(st.sampled_from(["first", "first", "last", "arbitrary"]))
     c["hp_opts"] = {"only_indels": draw(st.integers(0, 3)) == 0, "ignore_read_groups": draw(st.integers(0, 3)) == 0}
     c["tag_reads_of_sets"] = draw(st.sampled_from(["all", "all", "first-set-only"]))
     return c
@@ -122,8 +124,8 @@ class PipelinePart:
         if case["tag_reads_of_sets"] == "first-set-only":
             # keep tags only on reads of the first phase set of each contig (others lose HP/PS): models partial tagging
             firsts = {}
-            for (cname, vi), (sid, order) in truth.get(s, {}).items():
-                firsts[cname] = min(firsts.get(cname, sid), sid)
+            for (cname, vi), (sid, order) in sorted(truth.get(s, {}).items()):
+                firsts.setdefault(cname, sid)      # label of the leftmost phased variant's set
             tmp = tagged + ".tmp.bam"
             with pysam.AlignmentFile(tagged) as f, pysam.AlignmentFile(tmp, "wb", template=f) as o:
                 names = f.references
@@ -191,8 +193,7 @@ class PipelinePart:
                     k = case["phasing"][s][key[0]]["sets"][vi]
                     order = [1, 0] if case["phasing"][s][key[0]]["swap"].get(str(k)) else [0, 1]
                     want_gt = tuple(case["haps"][s][key[0]][h][vi] for h in order)
-                    first = min(i for i, x in enumerate(case["phasing"][s][key[0]]["sets"]) if x == k)
-                    want_ps = case["variants"][key[0]][first]["pos"] + 1
+                    want_ps = set_label(case, case["variants"][key[0]], case["phasing"][s][key[0]]["sets"], k)
                 else:
                     want_gt, want_ps = o[0], o[2]
                 if gt != want_gt:
